@@ -194,6 +194,23 @@ class C11(Prop):
                 x0 = np.clip(np.asarray(zz.value, dtype=float), lo, hi); ref = float(pr.value)
         except Exception:  # noqa
             pass
+        # the conic re-solve is sometimes less accurate than the library's own result (FA-25): among the re-solve, the returned point and, for pure
+        # box constraints, an active-set (BVLS) solution, the certificate is taken at the feasible point with the smallest squared error
+        cands = [x0, np.clip(z, lo, hi)] if not len(h) else [x0]
+        if not len(h):
+            try:
+                from scipy.optimize import lsq_linear as _bvls
+                free = hi > lo
+                zb = np.array(lo, dtype=float)
+                if free.any():
+                    rb = _bvls(M[:, free], e - M[:, ~free] @ lo[~free], bounds=(lo[free], hi[free]), method="bvls", tol=1e-15, max_iter=2000)
+                    zb[free] = np.clip(rb.x, lo[free], hi[free])
+                cands.append(zb)
+            except Exception:  # noqa
+                pass
+        x0 = min(cands, key=lambda v: float(np.sum((M @ v - e) ** 2)))
+        if ref is not None:
+            ref = min(ref, float(np.sum((M @ x0 - e) ** 2)))
         g = 2 * M.T @ (M @ x0 - e)
         cert = dualcert.best_cert(g, x0, lo, hi, G, h, [])
         case["_p"] = dict(x0=x0, ref=ref, sys=sys, Ap=Ap, bp=bp, W=W, mask=mask, M=M, e=e, z=z, lo=lo, hi=hi, G=G, h=h, cert=cert, loss2=loss2, lastX=lastX, L=L, S=S, Bs=Bs)
